@@ -227,6 +227,20 @@ def run_case(case, ctx, res):
         if msg:
             res.violate("result-depends-on-history", f"{op} ({kind}, {u1!r} vs {u2!r}) repeated on the same objects after a's "
                         f"numbers were doubled in place: {msg}", sig=sig)
+            return
+        # ... and once more after the RIGHT operand was changed in place
+        if kind == "array" and np.dtype(dt2).kind == "f" and np.shape(v2):
+            b.values[...] = np.asarray(b.values) * 3
+            B3 = Q(B.v * 3, B.dims)
+            exp3 = {"add": lambda: Q(A2.v + B3.v, A.dims), "sub": lambda: Q(A2.v - B3.v, A.dims),
+                    "mul": lambda: Q(A2.v * B3.v, expect.dims), "div": lambda: Q(A2.v / B3.v, expect.dims)}[op]()
+            with np.errstate(all="ignore"):
+                out3 = attempt(fn)
+            cond3 = (np.abs(A2.v) + np.abs(B3.v)) if op in ("add", "sub") else None
+            msg = "raised" if not out3.ok else compare_quantity(out3.value.values, out3.value.unit, exp3, 2 * rt, cond3)
+            if msg:
+                res.violate("result-depends-on-history", f"{op} ({kind}, {u1!r} vs {u2!r}) repeated on the same objects after b's "
+                            f"numbers were tripled in place: {msg}", sig=sig)
 
 
 def _dims_equal(d1, d2):
